@@ -36,6 +36,10 @@ TRIAGED_DEBUG_FEATURE = {
     ("read_vu64_u32", "panic"): "abyssiniandb_debug (test configuration): checked u64 -> u32 narrowing of a decoded field",
     ("sub", "panic"): "abyssiniandb_debug (test configuration): checked narrowing of an offset difference",
 }
+FRESH_ERRORS = {
+    "read_and_decode_vu64": "translates the vu64 decoder's own error value into io::Error (no new condition)",
+    "header-check": "a foreign / damaged header refused with Err instead of a panic: refused either way (C13)",
+}
 KEYOFF = "abyssiniandb::filedb::inner::semtype::Offset<abyssiniandb::filedb::inner::semtype::Piece<abyssiniandb::filedb::inner::semtype::Key>>"
 
 
@@ -114,6 +118,38 @@ def _check_own(ctx):
             ctx.check(bool(creators) and all(fn.dominates(c, b) for c in creators), "abort", "%s:after-create" % name,
                       "the 'Cannot create db_maps' panic in %s is not dominated by the successful creation call" % name, where=where(fn, b))
     ctx.sample({"closure_functions": len(closure), "diverging_sites": n_div, "abort_macros_found": sorted("%s:%s" % k for k in found)})
+    # ---- (1b) fresh errors: the same inventory for `io::Error` values *constructed* (not propagated) on the data path.
+    # A new one means some state or input that used to be served is now refused with Err.
+    fresh = {}
+    n_err_calls = 0
+    for fn in closure.values():
+        for b, t in fn.calls():
+            if fn.is_cleanup(b):
+                continue
+            c = t.get("callee") or ""
+            full = t.get("callee_full") or c
+            ga = t.get("gargs") or []
+            io_err = c.startswith(("std::io::Error::", "std::io::error::Error::"))
+            is_ctor = io_err and c.rsplit("::", 1)[-1] in ("new", "other", "from_raw_os_error", "last_os_error", "new_const") \
+                or (c in ("core::convert::From::from", "core::convert::Into::into") and ("io::Error" in full or "io::error::Error" in full) and any("ErrorKind" in g for g in ga))
+            if io_err:
+                n_err_calls += 1
+            if is_ctor:
+                owner = fn
+                while owner.kind == "Closure" and owner.parent in prog.fns:
+                    owner = prog.fns[owner.parent]
+                fresh.setdefault(role_name.get(owner.id, owner.name), []).append((fn, b))
+    for name, sites in sorted(fresh.items()):
+        fn, b = sites[0]
+        ctx.touch(fn)
+        if name in FRESH_ERRORS:
+            ctx.ok("refusal", name, "triaged: " + FRESH_ERRORS[name])
+        else:
+            ctx.fail("refusal", name, "%s constructs a new io::Error on the data path: a state or input that was served before is now refused" % fn.id,
+                     where="; ".join(where(f, bb) for f, bb in sites))
+    ctx.ok("refusal", "inventory", "%d io::Error constructor site(s) in %d data-path functions (%d calls on io::Error seen)" % (sum(len(v) for v in fresh.values()), len(closure), n_err_calls))
+    pp_fresh = [1 for f in pp.fns.values() if f.name == "fresh_error" for b, t in f.calls() if (t.get("callee") or "").startswith(("std::io::Error::", "std::io::error::Error::"))]
+    ctx.check(bool(pp_fresh), "positive-control", "fresh-error", "the fresh-error detector does not see the planted io::Error::new in the fixture")
 
     # ---- (2) moved key record is re-linked -----------------------------------------------------
     # Every rewrite of a key record (KEY_REWRITE) inside the map type can move the record.  Its resulting offset must
@@ -284,4 +320,4 @@ def check(ctx):
     import_rules(ctx, "c05", {"delete-links", "overwrite-links", "insert-links"})
     import_rules(ctx, "c06", {"writer-arms"})
     import_rules(ctx, "c09", {"sizer-covers-writer", "slot-honoured"})
-    import_rules(ctx, "c01", {"op-wiring"})
+    import_rules(ctx, "c01", {"op-wiring", "lookup-result"})
